@@ -2,6 +2,7 @@ package netty
 
 import (
 	"context"
+	"time"
 
 	"github.com/go-netty/go-netty/internal/vrt"
 )
@@ -13,14 +14,27 @@ func (e *zzParkExecutor) Exec(Action) { e.parked++ }
 
 // ZZ_C18_NonBlockingExact: non-blocking mode with a sender that never dequeues: the k-th call fails iff k > Q,
 // and no call ever waits (the harness thread would be reported as blocked).
-func ZZ_C18_NonBlockingExact(q, entry int) {
+//
+//	ctxKind: 0 context.Background, 1 a context with a far deadline, 2 a cancellable context that is not cancelled
+func ZZ_C18_NonBlockingExact(q, entry, ctxKind int) {
+	ctx := context.Background()
+	switch ctxKind {
+	case 1:
+		c, cancel := context.WithTimeout(context.Background(), time.Hour)
+		defer cancel()
+		ctx = c
+	case 2:
+		c, cancel := context.WithCancel(context.Background())
+		defer cancel()
+		ctx = c
+	}
 	tr := newZZTransport()
 	pl := NewPipeline()
 	ex := &zzParkExecutor{}
 	ch := newChannelWith(context.Background(), pl, tr, ex, 1, q, false).(*channel)
 	pl.(*pipeline).channel = ch
 	for k := 1; k <= q+2; k++ {
-		n, err := zzCall(ch, (entry+k)%8, context.Background(), []byte{byte(k), 0x11})
+		n, err := zzCall(ch, (entry+k)%8, ctx, []byte{byte(k), 0x11})
 		if k <= q {
 			vrt.Assert(err == nil && n == 2, "c18-accepts-while-queue-has-room")
 		} else {
